@@ -130,7 +130,8 @@ fn oracle(c: &BatchCase) -> Verdict {
         let m = Modulus::new(t);
         for s in steps {
             let elt = match catch(|| gt.get_elt_from_step(s)) { Ok(e) => e, Err(p) => return fail(format!("get_elt_from_step({s}) panicked for N={n}: {p}")) };
-            let mut out = vec![0u64; n];
+            // the result buffer is one that was used before (every position has to be overwritten)
+            let mut out: Vec<u64> = (0..n).map(|i| (i as u64 * 7 + 3) % t).collect();
             gt.apply(&poly, elt, &m, &mut out);
             // the polynomial map must be X -> X^elt
             if n <= 256 { check!(out == rm::galois_coeff(&poly, elt as u64, t), "GaloisTool::apply is not X -> X^{elt} (N={n})"); }
